@@ -12,7 +12,7 @@
    final state lists the file system after every dump call (every prefix of the effect sequence).
    Every theorem quantifies over ALL plans, partition lists, retry counts and call offsets. *)
 From Coq Require Import List Bool Arith NArith.
-Require Import PV.Gen.SaveOrder PV.Model.Save PV.Proofs.Save PV.Proofs.SaveNames.
+Require Import PV.Gen.SaveOrder PV.Model.Save PV.Proofs.Save PV.Proofs.SaveNames PV.Proofs.SaveHistory.
 Import ListNotations.
 
 (* ---- clause 1: an existing target is refused before anything is written or modified ----
@@ -32,6 +32,12 @@ Theorem C09_marker_implies_complete : forall A render sv p m xs c0 r s',
   forall f, In f (s_hist s' ++ [s_fs s']) -> child f NMarker <> None ->
   f = complete_dir A render xs /\ length xs <> 1.
 Proof. exact marker_implies_complete. Qed.
+(* the history quantified over above is faithful: exactly one entry per dump call made by this save, and the
+   final file system is its last entry (the initial one when nothing was called) -- for any target pre-state *)
+Theorem C09_history_faithful : forall A render sv p m xs f0 c0 lk r s',
+  save A render sv p m xs (init_st f0 c0 lk) = (r, s') ->
+  s_calls s' = c0 + length (s_hist s') /\ s_fs s' = last (s_hist s') f0.
+Proof. exact history_faithful. Qed.
 (* ... and the complete directory holds, for every i, the final content of partition i and no other part file *)
 Theorem C09_complete_dir_parts : forall A render xs i,
   child (complete_dir A render xs) (NPart i) = option_map render (nth_error xs i).
